@@ -227,10 +227,19 @@ def run_case(s):
         counts["epanet_warning_truncations"] = 1
     dk = devkey(s)
     # ---- leg A
+    # a pump that WNTR runs backwards (reported open with negative flow) is its own, narrow violation class
+    back = None
+    for l in s["links"]:
+        if l["t"] in ("hpump", "ppump"):
+            q, st = rw.link["flowrate"][l["n"]], rw.link["status"][l["n"]]
+            if any(q[i] < -1e-5 and st[i] != 0 for i in range(min(len(rw.times), upto))):
+                back = l["t"]
+    if back:
+        dk = "pump-runs-backwards:%s" % back
     if rw.error:
         nsolved = len(rw.times)
         if nsolved < upto:
-            viol.append({"key": "A:wntr-fails:%s" % dk, "what": "EPANET solves %d warning-free report steps but WNTRSimulator stops after %d (%s)" % (upto, nsolved, rw.warnings[:1])})
+            viol.append({"key": "A:wntr-fails:%s:%s" % (s.get("id", {}).get("skel"), _devfull(s) if not back else dk), "what": "EPANET solves %d warning-free report steps but WNTRSimulator stops after %d (%s)" % (upto, nsolved, rw.warnings[:1])})
             upto = nsolved
     if not viol:
         msg, k = compare(s, rw, re_, "WNTR", "EPANET", upto, counts, limit_steps=limit_steps)
@@ -257,6 +266,13 @@ def run_case(s):
         if v["key"] not in seen:
             seen.add(v["key"]); out.append(v)
     return {"viol": out[:4], "nontrivial": bool(s.get("id", {}).get("devs")) and compared >= 2, "outcome": "cmp%d" % min(compared, 7), "counts": counts}
+
+
+def _devfull(s):
+    out = []
+    for x in s.get("id", {}).get("devs", []):
+        out.append("-".join(str(x[k]) for k in ("k", "l", "n", "vt", "setting") if k in x))
+    return "+".join(sorted(out)) or "base"
 
 
 def _cls(msg):
